@@ -347,6 +347,91 @@ def patterns(rng, thorough=False):
                 return b.m
             add("cf:empty_cycle:%s:%d" % (t, ncyc), empty_cycle, "f", [t, t])
 
+        def cond_store_in_loop(t=t):
+            # a store reached only under an if nested inside a loop: phis are needed at the
+            # *iterated* dominance frontier (if-join, then loop header)
+            b = B("f", t, [t, t])
+            y, z = b.p
+            x, i = b.alloc(8), b.alloc(8)
+            b.store(b.c(0, t), x)
+            b.store(b.c(0, t), i)
+            head, body, then, join, done = [b.block(s) for s in ("head", "body", "then", "join", "done")]
+            b.jmp(head)
+            b.at(head).cj(b.load(i, t), "<", b.c(3, t), body, done)
+            b.at(body).cj(b.bin(b.load(i, t), "+", y, t), ">", z, then, join)
+            b.at(then).store(b.bin(b.load(x, t), "+", b.c(9, t), t), x)
+            b.jmp(join)
+            b.at(join).store(b.bin(b.load(i, t), "+", b.c(1, t), t), i)
+            b.jmp(head)
+            b.at(done).ret(b.load(x, t))
+            return b.m
+        add("cf:cond_store_in_loop:%s" % t, cond_store_in_loop, "f", [t, t])
+
+        def nested_if_store(t=t):
+            # inner if inside an outer if, value used after the outer join
+            b = B("f", t, [t, t])
+            y, z = b.p
+            x = b.alloc(8)
+            b.store(b.c(5, t), x)
+            outer, inner, ij, oj = [b.block(s) for s in ("outer", "inner", "ij", "oj")]
+            b.cj(y, ">", b.c(0, t), outer, oj)
+            b.at(outer).cj(z, ">", b.c(0, t), inner, ij)
+            b.at(inner).store(b.bin(y, "+", z, t), x)
+            b.jmp(ij)
+            b.at(ij).jmp(oj)
+            b.at(oj).ret(b.bin(b.load(x, t), "^", y, t))
+            return b.m
+        add("cf:nested_if_store:%s" % t, nested_if_store, "f", [t, t])
+
+        def inner_alloc_in_loop(t=t):
+            # an alloc in a non-entry block inside a loop, assigned on one arm only, read after the join
+            b = B("f", t, [t, t])
+            y, z = b.p
+            i = b.alloc(8)
+            acc = b.alloc(8)
+            b.store(b.c(0, t), i)
+            b.store(b.c(0, t), acc)
+            head, body, then, join, done = [b.block(s) for s in ("head", "body", "then", "join", "done")]
+            b.jmp(head)
+            b.at(head).cj(b.load(i, t), "<", b.c(2, t), body, done)
+            b.at(body)
+            v = b.alloc(8)
+            b.store(z, v)
+            b.cj(y, ">", b.load(i, t), then, join)
+            b.at(then).store(b.bin(y, "+", b.load(i, t), t), v)
+            b.jmp(join)
+            b.at(join)
+            b.store(b.bin(b.load(acc, t), "+", b.load(v, t), t), acc)
+            b.store(b.bin(b.load(i, t), "+", b.c(1, t), t), i)
+            b.jmp(head)
+            b.at(done).ret(b.load(acc, t))
+            return b.m
+        add("cf:inner_alloc_in_loop:%s" % t, inner_alloc_in_loop, "f", [t, t])
+
+        def inner_alloc_one_arm(t=t):
+            # like above but the inner variable is assigned on one arm only (undefined on the other path, not read there)
+            b = B("f", t, [t, t])
+            y, z = b.p
+            i = b.alloc(8)
+            acc = b.alloc(8)
+            b.store(b.c(0, t), i)
+            b.store(z, acc)
+            head, body, then, join, done = [b.block(s) for s in ("head", "body", "then", "join", "done")]
+            b.jmp(head)
+            b.at(head).cj(b.load(i, t), "<", b.c(2, t), body, done)
+            b.at(body)
+            v = b.alloc(8)
+            b.cj(y, ">", b.load(i, t), then, join)
+            b.at(then)
+            b.store(b.bin(y, "+", b.load(i, t), t), v)
+            b.store(b.bin(b.load(acc, t), "+", b.load(v, t), t), acc)
+            b.jmp(join)
+            b.at(join).store(b.bin(b.load(i, t), "+", b.c(1, t), t), i)
+            b.jmp(head)
+            b.at(done).ret(b.load(acc, t))
+            return b.m
+        add("cf:inner_alloc_one_arm:%s" % t, inner_alloc_one_arm, "f", [t, t])
+
         def nested_loops(t=t):
             # loop nest with two stores to one variable (phi placement at iterated dominance frontier)
             b = B("f", t, [t, t])
